@@ -258,7 +258,36 @@ func c11Dec(c *fw.Ctx, i int) {
 	d.I, d.L, d.T, d.K, d.M = f&32 != 0, f&64 != 0, f&128 != 0, f&256 != 0, f&512 != 0
 	d.PID = []uint8{0, 1, 4, 7}[i>>10&3]
 	d.RSV = []uint8{0, 15}[i>>12&1]
+	// the read loop of a receiver: one VP8Packet, one receive buffer, IsPartitionHead asked before Unmarshal; every packet of the
+	// loop has the same length (12 octets: descriptor plus filler), the S bit alternates with what the previous packet had
+	var loopPkt codecs.VP8Packet
+	loopBuf := make([]byte, 12)
 	for draw := 0; draw < 8; draw++ {
+		{
+			ld := ref.VP8Desc{S: draw%2 == 0, PID: 0}
+			if draw >= 2 {
+				ld = d
+				ld.S = !d.S == (draw%2 == 0)
+			}
+			le := ld.Encode()
+			if len(le) <= len(loopBuf) {
+				copy(loopBuf, le)
+				for q := len(le); q < len(loopBuf); q++ {
+					loopBuf[q] = byte(r.Intn(256))
+				}
+				var head bool
+				var err error
+				if pv, st := fw.Guard(func() { head = loopPkt.IsPartitionHead(loopBuf); _, err = loopPkt.Unmarshal(loopBuf) }); pv != nil {
+					c.Fail("C11/decoder/panic/"+fw.PanicFunc(st), fmt.Sprintf("VP8Packet panicked in a read loop: %v", pv), fw.W("input", fw.Hex(loopBuf), "stack", st))
+					return
+				}
+				if head != ld.S || err != nil || (loopPkt.S == 1) != ld.S {
+					c.Fail("C11/ispartitionhead/read-loop-with-one-receive-buffer", fmt.Sprintf("one VP8Packet, one receive buffer: IsPartitionHead = %v, then Unmarshal err %v S = %d, the descriptor has S = %v", head, err, loopPkt.S, ld.S), fw.W("input", fw.Hex(loopBuf)))
+					return
+				}
+				c.Count("read_loop_rounds", 1)
+			}
+		}
 		d.PictureID = c11Vals16[r.Intn(len(c11Vals16))]
 		if draw >= 6 {
 			d.PictureID = uint16(r.Intn(0x8000))
